@@ -16,6 +16,7 @@ def table (group : String) : Option (List (String × OpS)) :=
   | "est" => some (ratOps opsEstRat ++ opsEstFloat)
   | "eig" => some (ratOps opsEigRat ++ opsEigFloat)
   | "sim" => some opsSim
+  | "tm" => some opsTm
   | _ => none
 
 def outLineS (x : Except Err (List String)) : String :=
